@@ -246,7 +246,13 @@ def handle : Handler := fun op inp impl => do
     let baseTags := [s!"kind:{← fStr inp "kind"}", s!"style:{styleStr style}", s!"phase:{RV.Drv.Executor.phaseStr br.status.phase}",
       s!"state:{RV.Drv.Executor.bstateStr br.status.batchState}", if br.deleting then "deleting" else "live",
       if br.partition.isSome then "partitioned" else "nopartition", if br.rollbackAnno then "rollbackAnno" else "noRollbackAnno",
-      s!"hash:{RV.Drv.Executor.hashStr br.status.hash}"]
+      s!"hash:{RV.Drv.Executor.hashStr br.status.hash}",
+      match dispatch kind style enable with
+      | none => "dispatch:none"
+      | some .csPartition => "dispatch:csPartition" | some .dsPartition => "dispatch:dsPartition"
+      | some .depPartition => "dispatch:depPartition" | some .stsLike => "dispatch:stsLike"
+      | some .depCanary => "dispatch:depCanary" | some .csBlueGreen => "dispatch:csBlueGreen"
+      | some .depBlueGreen => "dispatch:depBlueGreen"]
     let implPanic := (jopt impl "panic").isSome
     let mismatch : R OpResult :=
       return { model := .null, holds := [], tags := "mismatch:dispatch" :: baseTags }
